@@ -8,6 +8,10 @@ Theorems of coq/C18 + correspondence / property-on-impl for
   kind 5  Rotation rotateDirect / rotateInverse
   kind 6  hermiteCondExpElement with 1-8 coefficients, under AddressSanitizer
   kind 7  AnamEmpirical / AnamHermite fits of degenerate data (constant, single, undefined), under AddressSanitizer
+  kind 8  AnamHermite::fitFromArray: classes, frequencies, coefficients against the exact model fed with the cdf / pdf / quantile oracles; re-fit
+  kind 9  AnamDiscreteDD fit of a fresh object, AnamDiscreteIR fit and indicator-residual factors (exact references computed here)
+Quick tier: the ASan cases run in a harness where only Hermite.cpp, AnamHermite.cpp, AnamEmpirical.cpp are instrumented (no ASan library
+needed, ~15 s); thorough tier: ASan flavour of the whole library.
 
 Two-stage correspondence: the harness runs first and returns its answers together with the oracles the model needs
 (eigen-pairs, square roots, fitted coefficients and bounds, tables); the model case = inputs + oracles.
@@ -21,6 +25,9 @@ Violation keys (call site : what fails):
   AnamEmpirical:fit-table, :raw-gaussian-raw-roundtrip, :not-monotone, :undefined-in, :fit-fails, :fit-throws, :fit-accepts-degenerate-data
   AnamHermite:bounds-inverted, :fit-throws, :fit-accepts-degenerate-data     asan:<function>:<report>:degenerate-data
   Rotation:inverse-not-transpose, :certificate, :direct-inverse-roundtrip
+  AnamHermite:fit-psi0-not-mean, :fit-variance-exceeded, :fit-frequencies, :refit-differs     maf:certificate:Gh.V-C0.V.L, maf:factors-autocorrelated
+  Rotation:angles-matrix-roundtrip, :cos-sin-not-unit     AnamDiscreteIR:z2factor, :factors-not-centred, :factors-not-orthogonal, :fit-fails
+  AnamDiscreteDD:fit-throws, :fit-return-code     crash:AnamDiscreteDD:fit
   model-drift:<kind>:<quantity>  (impl satisfies the property on every explored input but differs from the model)   crash:<kind>
 """
 import sys, os, math
@@ -77,6 +84,16 @@ def gen_pca(ctx, rng, quick):
         else:
             n = nvar; cols = [c[:n] for c in cols]
         dist = 'singular-' + how
+    # units: every variable in its own unit (global scale 2^-60 .. 2^30, per-variable factor 2^-8 .. 2^8) and its own offset,
+    # all powers of two so that the data stay dyadic
+    if rng.random() < .7:
+        g = rng.choice([-60, -50, -40, -30, -24, -20, -14, -7, 0, 0, 7, 14, 20, 30])   # units from ~1e-18 (x 2^-8); values are kept below 2^40 ~ 1e12 and
+        # spreads above ~1e-21: gstlearn reads anything above 1e30 (variances, entries of Z2F = 1 / spread) as the undefined value
+        for i in range(nvar):
+            f = Fraction(2) ** (g + rng.randint(-8, 8)); off = f * rng.choice([0, 3, -5, 40, 1000])
+            cols[i] = [x * f + off for x in cols[i]]
+            while max(abs(x) for x in cols[i]) >= 2 ** 40: cols[i] = [x / 1024 for x in cols[i]]
+        dist += ',scaled'; ctx.dist('pca_scale_2^%d' % g)
     p_na = 0 if degen else rng.choice([0, 0, .15, .3])       # heterotopic samples: some variables undefined
     for s in range(n):
         if rng.random() < p_na:
@@ -84,6 +101,7 @@ def gen_pca(ctx, rng, quick):
     sel = [rng.random() < .8 for _ in range(n)] if (rng.random() < .4 and not degen) else []
     xs = [Fraction(rng.randint(0, 40), 2) for _ in range(n)]; ys = [Fraction(rng.randint(0, 40), 2) for _ in range(n)]
     mode = rng.choice([0, 0, 1])
+    dist = dist.replace(',scaled', '')
     hmin = Fraction(rng.choice([0, 0, 1, 2])); hmax = hmin + rng.choice([3, 5, 8, 100]) + Fraction(1, 4)
     ne = rng.choice([0, 3])
     extra = [[Fraction(rng.randint(-12, 12), 4) if rng.random() > .15 else None for _ in range(ne)] for _ in range(nvar)] if ne else []
@@ -103,7 +121,7 @@ def pca_model_case(py, im):
         if x == []: return [0, 0]
         if isinstance(x, list) and x and isinstance(x[0], list): return [san(y) for y in x]
         return x
-    return [0, py['mode'], py['nvar'], c[4], c[5], san(eigval), san(eigvec), san(sq), san(sigma), san(z2f), san(f2z), c[8]]
+    return [0, py['mode'], py['nvar'], c[4], c[5], san(eigval), san(eigvec), san(sq), san(sigma), san(z2f), san(f2z), c[8], c[3], c[6], c[7]]
 
 def sample_cov(rows):
     n = len(rows); k = len(rows[0])
@@ -113,7 +131,7 @@ def sample_cov(rows):
 def check_pca(ctx, py, im, mo, site):
     nvar, n, mode = py['nvar'], py['n'], py['mode']
     name = 'pca' if mode == 0 else 'maf'
-    iso, niso, mean_m, var_m, c0_m, z2f_m, f2z_m, fac_m, back_m, resid, xback_m, reg = mo
+    iso, niso, mean_m, var_m, c0_m, z2f_m, f2z_m, fac_m, back_m, resid, xback_m, reg, ghm = mo
     mean_m = vq(mean_m); var_m = vq(var_m); resid = vq(resid)
     if niso < 2:
         site.excluded = True; return
@@ -129,7 +147,7 @@ def check_pca(ctx, py, im, mo, site):
             if not iso[s]: continue
             for v in range(nvar):
                 z = py['cols'][v][s]
-                if back_i[s] is None or abs(float(back_i[s][v]) - float(z)) > 1e-6 * (scale + abs(float(z))):
+                if back_i[s] is None or abs(float(back_i[s][v]) - float(z)) > 1e-6 * (max(abs(float(x)) for x in py['cols'][v] if x is not None) + 1e-300):
                     site.spec.append(('%s:singular-covariance' % name, '%s computation returns 0 on a singular covariance matrix (exact rank deficiency: constant or dependent variables, or too few '
                                       'isotopic samples); sample %d variable %d: z = %.9g, dbF2Z(dbZ2F(z)) = %s' % (name, s, v, float(z), 'undefined' if back_i[s] is None else '%.9g' % float(back_i[s][v]))))
                     return
@@ -140,42 +158,99 @@ def check_pca(ctx, py, im, mo, site):
     rc, eigval, eigvec, mean, sigma, z2f, f2z, c0, gh, sq, r1, fac, r2, back, ncolnew, r3, xback = im
     eigval = vd(eigval); mean = vd(mean); sigma = vd(sigma); sq = vd(sq)
     lam_ok = all(l is not None and l > 0 for l in eigval)
-    scale = max([abs(float(x)) for c in py['cols'] for x in c if x is not None] + [1.0])
+    # every variable is judged in its own unit: spread sd_v, largest absolute value A_v (over the isotopic samples)
+    isoidx = [s_ for s_ in range(n) if iso[s_]]
+    A = [max([abs(float(py['cols'][v][s_])) for s_ in isoidx] + [1e-300]) for v in range(nvar)]
+    sd = [math.sqrt(max(float(v), 0.0)) for v in var_m]
+    D = [sd[v] + 1e-6 * A[v] for v in range(nvar)]
     vmax = max([float(v) for v in var_m] + [1e-300])
     if not lam_ok or min(float(v) for v in var_m) <= 1e-12 * vmax:
         site.excluded = True; return            # singular covariance: the transform is not invertible (stated hypothesis lambda > 0)
     cond = math.sqrt(max(map(float, eigval)) / min(map(float, eigval)))
+    Zm = [[float(unq(x)) for x in r] for r in z2f_m]
     if mode == 1:
-        # MAF: conditioning of Z2F (exact inverse from the model)
         if f2z_m == []:
             site.excluded = True; return
-        nz = max(sum(abs(float(x)) for x in r) for r in md(z2f)); nf = max(sum(abs(float(unq(x))) for x in r) for r in f2z_m)
+        Fm = [[float(unq(x)) for x in r] for r in f2z_m]
+        # conditioning of Z2F in dimensionless form (rows divided by the unit of the variable)
+        nz = max(sum(abs(Zm[i][k]) * D[i] for k in range(nvar)) for i in range(nvar)); nf = max(sum(abs(Fm[k][i]) / D[i] for i in range(nvar)) for k in range(nvar))
         cond = max(cond, nz * nf)
+    else:
+        Fm = [[float(unq(x)) for x in r] for r in f2z_m]
     if cond > 1e5:
         site.excluded = True; return
-    tol = 1e-10 * cond
-    # --- correspondence
-    site.vec('%s mean' % name, mean, mean_m, 1e-12, scale)
-    site.vec('%s sigma^2' % name, [s * s for s in sigma], var_m, 1e-11, vmax)
-    site.mat('%s c0' % name, md(c0), mq(c0_m), 1e-11, vmax)
-    site.mat('%s Z2F' % name, md(z2f), mq(z2f_m), 1e-13 if mode == 0 else 0.0)
-    site.mat('%s F2Z' % name, md(f2z), mq(f2z_m), 1e-13 if mode == 0 else tol, 0.0 if mode == 0 else max(abs(float(unq(x))) for r in f2z_m for x in r))
+    # --- correspondence (tolerances relative to the unit of each variable)
+    for v in range(nvar):
+        site.close('%s mean[%d]' % (name, v), mean[v], mean_m[v], 1e-13, A[v])
+        site.close('%s sigma^2[%d]' % (name, v), sigma[v] * sigma[v], var_m[v], 1e-11, A[v] * A[v] * 1e-3)
+    c0i = md(c0); c0q = mq(c0_m)
+    for i in range(nvar):
+        for j in range(nvar):
+            if abs(float(c0i[i][j]) - float(c0q[i][j])) > 1e-11 * (D[i] * D[j] + 1e-4 * A[i] * A[j]) + 1e-12 * abs(float(c0q[i][j])):
+                site.drift.append('%s c0[%d][%d]: impl %.15g model %.15g' % (name, i, j, float(c0i[i][j]), float(c0q[i][j])))
+    site.mat('%s Z2F' % name, md(z2f), mq(z2f_m), 1e-13 if mode == 0 else 0.0, 0.0)
+    f2zi = md(f2z)
+    for k in range(nvar):
+        for i in range(nvar):
+            tolf = 1e-13 * abs(Fm[k][i]) if mode == 0 else 1e-10 * cond * (abs(Fm[k][i]) + D[i] * max(abs(Fm[k][j]) / D[j] for j in range(nvar)))
+            if abs(float(f2zi[k][i]) - Fm[k][i]) > tolf:
+                site.drift.append('%s F2Z[%d][%d]: impl %.15g model %.15g' % (name, k, i, float(f2zi[k][i]), Fm[k][i]))
+    if mode == 1 and ghm != []:
+        # the lag-h matrix of _variogramh (pairwise definition) and what makes the factors 'min/max autocorrelation factors'
+        gh_m, npairs, marg, r_gen, r_diag = ghm
+        ctx.dist('maf_pairs_%s' % ('0' if npairs == 0 else '1-9' if npairs < 10 else '10+'))
+        hm2 = max(float(undy(py['case'][7])) ** 2, 1.0)
+        if float(unq(marg)) <= 1e-9 * hm2:
+            site.tie = getattr(site, 'tie', 0) + 1
+        else:
+            ghi = md(gh); ghq = mq(gh_m)
+            for i in range(nvar):
+                for j in range(nvar):
+                    if abs(float(ghi[i][j]) - float(ghq[i][j])) > 1e-11 * (D[i] * D[j] * 4 + 1e-4 * A[i] * A[j]) + 1e-12 * abs(float(ghq[i][j])):
+                        site.drift.append('maf gh[%d][%d] (variogram matrix at lag h): impl %.15g model %.15g' % (i, j, float(ghi[i][j]), float(ghq[i][j])))
+            if npairs > 0:
+                # residuals in dimensionless form are not available from the model: scale by the largest entries
+                ghs = max([abs(float(x)) for r in ghq for x in r] + [1e-300])
+                if float(unq(r_gen)) > 1e-8 * cond * cond * nvar * max(D) * (max(map(float, eigval)) + 1):       # row i of Gh.V is in the unit of variable i
+                    site.spec.append(('maf:certificate:Gh.V-C0.V.L', 'exact residual max|Gh.V - C0.V.L| = %.3g on the harvested generalised eigen-pairs' % float(unq(r_gen))))
+                if float(unq(r_diag)) > 1e-8 * cond * cond * (max(map(float, eigval)) + 1):
+                    site.spec.append(('maf:factors-autocorrelated', 'V^T.Gh.V is not diag(lambda): exact residual %.3g (the factors must be uncorrelated at lag h too)' % float(unq(r_diag))))
     fac_i = rows_d(fac); back_i = rows_d(back); fac_mq = rows_q(fac_m); back_mq = rows_q(back_m)
-    fscale = scale * max(abs(float(unq(x))) for r in z2f_m for x in r) * nvar
+    mf = [float(x) for x in mean_m]
+    amp = 1.0
     for s in range(n):
         if (fac_i[s] is None) != (not iso[s]) or (back_i[s] is None) != (not iso[s]):
             site.spec.append(('%s:isotopic-filter' % name, 'sample %d: model isotopic=%d, impl factors %s, back %s (non-isotopic or masked samples must stay undefined, isotopic ones must be transformed)'
                               % (s, iso[s], fac_i[s], back_i[s])))
             return
-        if iso[s]:
-            site.vec('%s factors[sample %d]' % (name, s), fac_i[s], fac_mq[s], tol, fscale)
-            site.vec('%s back[sample %d]' % (name, s), back_i[s], back_mq[s], tol, scale)
+        if not iso[s]: continue
+        zf = [float(py['cols'][v][s]) for v in range(nvar)]
+        # round-off scale of each factor and of each back-transformed variable (sums of magnitudes)
+        fsc = [sum(abs(Zm[i][k]) * (abs(zf[i]) + abs(mf[i])) for i in range(nvar)) for k in range(nvar)]
+        bsc = [sum(abs(Fm[k][j]) * fsc[k] for k in range(nvar)) + abs(mf[j]) + abs(zf[j]) for j in range(nvar)]
+        for k in range(nvar):
+            fm_ = float(fac_mq[s][k]); amp = max(amp, fsc[k] / (abs(fm_) + 1.0))
+            if abs(float(fac_i[s][k]) - fm_) > 1e-11 * nvar * fsc[k] + 1e-13 * abs(fm_):
+                site.drift.append('%s factors[sample %d][%d]: impl %.15g model %.15g' % (name, s, k, float(fac_i[s][k]), fm_))
+        for j in range(nvar):
+            bm_ = float(back_mq[s][j])
+            if abs(float(back_i[s][j]) - bm_) > 1e-10 * nvar * bsc[j]:
+                site.drift.append('%s back[sample %d][%d]: impl %.15g model %.15g' % (name, s, j, float(back_i[s][j]), bm_))
+            # --- the property on the implementation: variables -> factors -> variables, in the unit of the variable
+            if abs(float(back_i[s][j]) - zf[j]) > 1e-10 * nvar * bsc[j] * max(1.0, cond * 1e-3):
+                site.spec.append(('%s:dbZ2F-dbF2Z-roundtrip' % name, 'sample %d variable %d: z = %.12g, F2Z(Z2F(z)) = %.12g (spread of the variable %.3g, mean %.6g; round-off scale %.3g)'
+                                  % (s, j, zf[j], float(back_i[s][j]), sd[j], mf[j], 1e-10 * nvar * bsc[j])))
+                return
     if ncolnew != 2 * nvar: site.drift.append('%s: %d new columns, expected %d' % (name, ncolnew, 2 * nvar))
     if py['extra']:
         xi = rows_d(xback); xm = rows_q(xback_m)
         for s in range(len(xm)):
             if (xi[s] is None) != (xm[s] is None): site.spec.append(('%s:isotopic-filter' % name, 'dbF2Z on given factors, sample %d: impl %s model %s' % (s, xi[s], xm[s]))); return
-            if xm[s] is not None: site.vec('%s dbF2Z(given factors)[%d]' % (name, s), xi[s], xm[s], tol, scale)
+            if xm[s] is not None:
+                fx = [float(undy(py['case'][8][k][s])) for k in range(nvar)]
+                for j in range(nvar):
+                    if abs(float(xi[s][j]) - float(xm[s][j])) > 1e-11 * nvar * (sum(abs(Fm[k][j]) * abs(fx[k]) for k in range(nvar)) + abs(mf[j])):
+                        site.drift.append('%s dbF2Z(given factors)[%d][%d]: impl %.15g model %.15g' % (name, s, j, float(xi[s][j]), float(xm[s][j])))
     # --- certificates on the harvested matrices, exact arithmetic
     lmax = max(map(float, eigval))
     names = ['E.Et - I', 'Et.E - I', 'sq^2 - lambda', 'E.L.Et - C0', 'Z2Ft.C0.Z2F - I', 'Z2F.F2Z - I', 'F2Z.Z2F - I']
@@ -184,20 +259,13 @@ def check_pca(ctx, py, im, mo, site):
     for k in range(7):
         if use[k] and float(resid[k]) > 1e-9 * scales[k]:
             site.spec.append(('%s:certificate:%s' % (name, names[k].replace(' ', '')), 'exact residual max|%s| = %.3g on the harvested matrices' % (names[k], float(resid[k]))))
-    # --- property on impl: round trip and orthonormal factors
-    for s in range(n):
-        if not iso[s]: continue
-        for v in range(nvar):
-            z = py['cols'][v][s]
-            if abs(float(back_i[s][v]) - float(z)) > 1e-9 * cond * (scale + abs(float(z))):
-                site.spec.append(('%s:dbZ2F-dbF2Z-roundtrip' % name, 'sample %d variable %d: z = %.12g, F2Z(Z2F(z)) = %.12g' % (s, v, float(z), float(back_i[s][v]))))
-                return
+    # --- factors: uncorrelated, unit variance
     rows = [[float(x) for x in fac_i[s]] for s in range(n) if iso[s]]
     G = sample_cov(rows)
-    for a in range(nvar):
-        for b in range(nvar):
-            if abs(G[a][b] - (1.0 if a == b else 0.0)) > 1e-8 * cond * cond:
-                site.spec.append(('%s:factors-not-orthonormal' % name, 'sample covariance of factors (%d,%d) = %.12g' % (a, b, G[a][b])))
+    for a_ in range(nvar):
+        for b_ in range(nvar):
+            if abs(G[a_][b_] - (1.0 if a_ == b_ else 0.0)) > 1e-8 * cond * cond + 1e-10 * amp * amp:
+                site.spec.append(('%s:factors-not-orthonormal' % name, 'sample covariance of factors (%d,%d) = %.12g' % (a_, b_, G[a_][b_])))
                 return
 
 # ----------------------------------------------------------------------------- kind 1: Hermite polynomials
@@ -242,10 +310,12 @@ def gen_anam(ctx, rng, quick):
     nb = rng.choice([5, 8, 12, 20, 30, 40, 60]) if mode == 0 else rng.choice([3, 5, 8, 12])
     flagBound = 1 if (mode == 0 and rng.random() < .85) else 0
     n = rng.randint(12, 60 if quick else 200)
-    dist = rng.choice(['lognormal', 'squares', 'ties', 'uniform', 'bimodal'])
+    dist = rng.choice(['lognormal', 'squares', 'ties', 'uniform', 'bimodal', 'negskew', 'negskew'])
+    if dist == 'negskew' and mode == 0: nb = rng.choice([15, 20, 30, 40]); n = max(n, 40)
     data = []
     for _ in range(n):
-        if dist == 'lognormal': v = Fraction(int(math.exp(rng.gauss(0, 1)) * 64), 64)
+        if dist == 'negskew': v = 10 - Fraction(int(math.exp(rng.gauss(0, 1)) * 64), 64)     # long lower tail: the expansion wiggles under the largest values
+        elif dist == 'lognormal': v = Fraction(int(math.exp(rng.gauss(0, 1)) * 64), 64)
         elif dist == 'squares': v = Fraction(rng.randint(1, 40) ** 2, 16)
         elif dist == 'ties': v = Fraction(rng.choice([1, 2, 2, 3, 5, 8, 8, 8, 13]))
         elif dist == 'uniform': v = Fraction(rng.randint(-500, 500), 8)
@@ -365,6 +435,15 @@ def check_anam(ctx, py, im, mo, site):
     # --- properties on impl (fitted anamorphosis with bounds: the validity interval is [az.min, az.max])
     if py['mode'] == 0 and py['flagBound']:
         pyv = [undy(pyi[0]), undy(pyi[1])]
+        # do the hypotheses of C18_t2r_monotone / C18_roundtrip_tails hold for this fitted object ?
+        flags_open = all(iv[2] == 0 and iv[3] == 0 for iv in (az, ay, pz, pyi))
+        if None not in azv + ayv + pzv + pyv:
+            nested = ayv[0] <= pyv[0] < pyv[1] <= ayv[1] and azv[0] <= pzv[0] <= pzv[1] <= azv[1]
+            coherent = (abs(pyv[0] - ayv[0]) <= 1e-10) == (abs(pzv[0] - azv[0]) <= 1e-10) and (abs(pyv[1] - ayv[1]) <= 1e-10) == (abs(pzv[1] - azv[1]) <= 1e-10)
+            ingrid = -9.8 <= ayv[0] < 0 < ayv[1] <= 9.8
+            ctx.dist('anam_theorem_hypotheses_%s' % ('hold' if flags_open and nested and coherent and ingrid else 'fail:' + ','.join(n_ for n_, ok in (('flags', flags_open), ('nested', nested), ('coherent-tails', coherent), ('|Ay|<=9.8', ingrid)) if not ok)))
+            if pzv[0] - azv[0] > 1e-10: ctx.dist('anam_tail_lower')
+            if azv[1] - pzv[1] > 1e-10: ctx.dist('anam_tail_upper')
         if None in azv or None in ayv or None in pzv or None in pyv or not (azv[0] < azv[1] and ayv[0] < ayv[1] and pzv[0] < pzv[1] and pyv[0] < pyv[1] and pzv[0] < azv[1] and azv[0] < pzv[1]):
             site.spec.append(('AnamHermite:bounds-inverted', 'the fitted anamorphosis reports absolute raw bounds [%s, %s] / Gaussian [%s, %s] and practical raw bounds [%s, %s] / Gaussian [%s, %s]: '
                               'an interval is empty / inverted (every raw value is then sent to a bound; data range [%.6g, %.6g])'
@@ -542,25 +621,46 @@ def gen_rot(ctx, rng, quick):
         arg = [dy(a) for a in ang]
     else:
         import itertools
-        perm = list(range(ndim)); rng.shuffle(perm)
-        sg = [rng.choice([-1, 1]) for _ in range(ndim)]
-        M = [[sg[i] if perm[i] == j else 0 for j in range(ndim)] for i in range(ndim)]
-        if rng.random() < .3: M[0][0] += 1      # not a rotation: must be refused
+        if rng.random() < .5:
+            perm = list(range(ndim)); rng.shuffle(perm)
+            sg = [rng.choice([-1, 1]) for _ in range(ndim)]
+            M = [[sg[i] if perm[i] == j else 0 for j in range(ndim)] for i in range(ndim)]
+        else:     # a generic rotation given by its matrix (binary64 entries, orthogonal to 1e-16)
+            a = [math.radians(rng.uniform(-180, 180)), math.radians(rng.uniform(-85, 85)), math.radians(rng.uniform(-180, 180))]
+            c, s_ = [math.cos(x) for x in a], [math.sin(x) for x in a]
+            M = [[c[0], -s_[0]], [s_[0], c[0]]] if ndim == 2 else \
+                [[c[0] * c[1], -s_[0] * c[2] + c[0] * s_[1] * s_[2], s_[0] * s_[2] + c[0] * s_[1] * c[2]],
+                 [s_[0] * c[1], c[0] * c[2] + s_[0] * s_[1] * s_[2], -c[0] * s_[2] + s_[0] * s_[1] * c[2]],
+                 [-s_[1], c[1] * s_[2], c[1] * c[2]]]
+        if rng.random() < .25: M[0][0] += 1      # not a rotation: must be refused
         arg = [dy(M[i][j]) for j in range(ndim) for i in range(ndim)]   # column-major
     vecs = [[Fraction(rng.randint(-4000, 4000), 16) for _ in range(ndim)] for _ in range(4)]
     ctx.dist('rot_%dd' % ndim); ctx.dist('rot_angles' if mode == 0 else 'rot_matrix')
     return {'ndim': ndim, 'mode': mode, 'vecs': vecs}, [5, ndim, mode, arg, [[dy(x) for x in v] for v in vecs]]
 
 def rot_model_case(py, im):
-    return [5, py['ndim'], im[1], im[2], im[3], py['case'][4]]
+    return [5, py['ndim'], im[1], im[2], im[3], py['case'][4], im[5]]
 
 def check_rot(ctx, py, im, mo, site):
-    rc, flag, M, Mi, res = im
+    rc, flag, M, Mi, res, cs, ang, rc2, M2 = im
     nd = py['ndim']; Md = md(M); Mid = md(Mi)
+    # setAngles: the matrix is the one defined by the (cos, sin) pairs; unit pairs
+    if py['mode'] == 0 and mo[1] != []:
+        site.mat('Rotation matrix from angles', Md, mq(mo[1]), 1e-15)
+        for k, p in enumerate(cs):
+            c_, s_ = undy(p[0]), undy(p[1])
+            if abs(float(c_ * c_ + s_ * s_) - 1.0) > 1e-15: site.spec.append(('Rotation:cos-sin-not-unit', 'angle %d: cos^2 + sin^2 = %.17g' % (k, float(c_ * c_ + s_ * s_)))); return
+    # angles -> matrix -> angles -> matrix
+    if rc == 0 and not (nd == 3 and abs(abs(float(Md[2][0])) - 1.0) < 1e-9):
+        M2d = md(M2)
+        for i in range(nd):
+            for j in range(nd):
+                if rc2 != 0 or abs(float(M2d[i][j]) - float(Md[i][j])) > 1e-12:
+                    site.spec.append(('Rotation:angles-matrix-roundtrip', 'matrix %s, angles held %s, matrix rebuilt from them %s' % ([[fl(x) for x in r] for r in Md], [fl(x) for x in vd(ang)], [[fl(x) for x in r] for r in M2d]))); return
     for i in range(nd):
         for j in range(nd):
             if Mid[i][j] != Md[j][i]: site.spec.append(('Rotation:inverse-not-transpose', '_rotInv(%d,%d) = %s, _rotMat(%d,%d) = %s' % (i, j, fl(Mid[i][j]), j, i, fl(Md[j][i])))); return
-    resid = vq(mo[1])
+    resid = vq(mo[2])
     for k, nm in enumerate(['Mt.M - I', 'M.Mt - I', 'Minv - Mt']):
         if float(resid[k]) > 1e-9: site.spec.append(('Rotation:certificate', 'exact residual max|%s| = %.3g' % (nm, float(resid[k])))); return
     for k, v in enumerate(py['vecs']):
@@ -588,6 +688,105 @@ def check_condexp(ctx, py, im, mo, site):
         site.spec.append(('hermiteCondExpElement:expansion', 'hermiteCondExpElement(%s, 0, %s) = %s, sum psi_n H_n(y) with the orthonormal Hermite polynomials = %.15g'
                           % (float(py['y']), [float(x) for x in py['psi']], fl(v), float(m))))
 
+# ----------------------------------------------------------------------------- kind 8: AnamHermite::fitFromArray
+def gen_fit(ctx, rng, quick):
+    n = rng.randint(3, 40 if quick else 150)
+    dist = rng.choice(['lognormal', 'ties', 'uniform', 'negskew'])
+    data = []
+    for _ in range(n):
+        if dist == 'lognormal': v = Fraction(int(math.exp(rng.gauss(0, 1)) * 64), 64)
+        elif dist == 'ties': v = Fraction(rng.choice([1, 2, 2, 3, 5, 8, 8, 8, 13]))
+        elif dist == 'uniform': v = Fraction(rng.randint(-500, 500), 8)
+        else: v = 10 - Fraction(int(math.exp(rng.gauss(0, 1)) * 64), 64)
+        data.append(v if rng.random() > .08 else None)
+    if len(set(x for x in data if x is not None)) < 2: data[0], data[1] = Fraction(1), Fraction(4)
+    nb = rng.choice([2, 3, 5, 8, 12, 20, 40])
+    ctx.dist('fit_' + dist); ctx.dist('fit_nb%d' % nb)
+    return {'data': data, 'nb': nb}, [8, nb, [dy(x) for x in data]]
+
+def fit_model_case(py, im):
+    if im[0] != 0: return None
+    c = py['case']
+    return [8, c[1], c[2], im[3], im[4], im[5], im[6]]
+
+def check_fit(ctx, py, im, mo, site):
+    nb = py['nb']; data = [x for x in py['data'] if x is not None]
+    rc, psi, zs, ys, Gc, g, sq, bnd, rc2, psi2, bnd2 = im
+    zs_m, Fs, psi_m, scales, mean, var, m = mo
+    psi = vd(psi); zs = vd(zs); ys = vd(ys); Gc = vd(Gc)
+    mean = unq(mean); var = unq(var); Fs = vq(Fs)
+    span = float(max(data) - min(data)) + 1.0
+    site.vec('fit class values', zs, vq(zs_m), 1e-12, span)
+    ncl = len(ys)
+    if ncl != m + 2: site.drift.append('fit: %d classes for %d distinct values' % (ncl, m)); return
+    # structure of the class limits and the oracle: G(G^-1(F_k)) = F_k, G(ANAM_YMAX + 1) = 1
+    if abs(ys[0] - (ys[1] - Fraction(1, 2))) > 1e-14 or abs(ys[m] - (ys[m - 1] + Fraction(1, 2))) > 1e-14 or ys[m + 1] != 11:
+        site.drift.append('fit: end classes ys = %s ... %s' % ([fl(y) for y in ys[:2]], [fl(y) for y in ys[-3:]]))
+    for k in range(1, m):
+        if abs(float(Gc[k]) - float(Fs[k - 1])) > 5e-7:
+            site.spec.append(('AnamHermite:fit-frequencies', 'class %d: cdf of the class limit %.9g, cumulated frequency %.9g' % (k, float(Gc[k]), float(Fs[k - 1])))); return
+    if Gc[m + 1] != 1: site.drift.append('fit: cdf(ANAM_YMAX + 1) = %s' % fl(Gc[m + 1]))
+    # coefficients: correspondence
+    for k in range(nb):
+        sc = float(unq(scales[k]))
+        if psi[k] is None or abs(float(psi[k]) - float(unq(psi_m[k]))) > 1e-13 * nb * ncl * (sc + 1e-300) + 1e-300:
+            site.drift.append('fit psi[%d]: impl %s model %.15g' % (k, fl(psi[k]), float(unq(psi_m[k])))); break
+    # property: psi_0 is the mean of the data up to the end classes (C18_fit_psi0: |psi0 - mean| <= EPSILON5 * range)
+    eps = 1e-5 * float(max(data) - min(data))
+    if abs(float(psi[0]) - float(mean)) > eps * (1 + 1e-6) + 1e-12 * span + 5e-7 * span:
+        site.spec.append(('AnamHermite:fit-psi0-not-mean', 'psi_0 = %.12g, mean of the data %.12g (allowed difference %.3g)' % (float(psi[0]), float(mean), eps))); return
+    # Bessel: the variance explained by the coefficients cannot exceed the variance of the data
+    s2 = sum(float(x) ** 2 for x in psi[1:])
+    if s2 > float(var) * (1 + 1e-3) + 2 * eps * span + 1e-9 * span * span:
+        site.spec.append(('AnamHermite:fit-variance-exceeded', 'sum psi_n^2 (n >= 1) = %.12g > variance of the data %.12g' % (s2, float(var)))); return
+    ctx.dist('fit_variance_ratio_%d0%%' % int(10 * min(s2 / float(var), 0.999)) if var > 0 else 'fit_variance_ratio_na')
+    # a re-fit on an object already used must give the same anamorphosis
+    if rc2 != 0 or vd(psi2) != psi or vd(bnd2) != vd(bnd):
+        site.spec.append(('AnamHermite:refit-differs', 'fitFromArray on an object already fitted on other data: psi_0 = %s (fresh object: %.12g), az = [%s, %s] (fresh: [%s, %s]): '
+                          'coefficients are accumulated on the previous ones and the previous bounds are kept'
+                          % (fl(vd(psi2)[0]) if rc2 == 0 else 'rc %d' % rc2, float(psi[0]), fl(vd(bnd2)[0]), fl(vd(bnd2)[1]), fl(vd(bnd)[0]), fl(vd(bnd)[1]))))
+
+# ----------------------------------------------------------------------------- kind 9: discrete anamorphoses (no model: exact references computed here)
+def gen_discrete(ctx, rng, quick):
+    which = rng.randint(0, 1)
+    n = rng.randint(8, 40)
+    data = [Fraction(rng.randint(1, 400), 64) for _ in range(n)]
+    if rng.random() < .3: data[rng.randrange(n)] = None
+    vals = sorted(x for x in data if x is not None)
+    ncut = rng.randint(1, 4)
+    zc = sorted(set(vals[(k + 1) * len(vals) // (ncut + 2)] for k in range(ncut)))
+    ctx.dist('discrete_%s' % ('DD' if which == 0 else 'IR'))
+    return {'which': which, 'data': data, 'zc': zc}, [9, which, [dy(x) for x in data], [dy(x) for x in zc]]
+
+def check_discrete(ctx, py, im, site):
+    data = [x for x in py['data'] if x is not None]; zc = py['zc']
+    if py['which'] == 0:
+        rc, threw = im
+        if threw: site.spec.append(('AnamDiscreteDD:fit-throws', 'an exception escapes AnamDiscreteDD::fitFromArray'))
+        elif rc == 0: site.spec.append(('AnamDiscreteDD:fit-return-code', 'AnamDiscreteDD::fitFromArray returns 0 (success) although no MAF transition matrix was provided (setPcaZ2F)'))
+        return
+    rc, threw, fac = im
+    if threw or rc != 0:
+        site.spec.append(('AnamDiscreteIR:fit-fails', 'AnamDiscreteIR::fitFromArray returns %d (exception: %d) on %d values, cutoffs %s' % (rc, threw, len(data), [float(z) for z in zc]))); return
+    # indicator residuals H_k(z) = 1(z >= z_k) / T_k - 1(z >= z_{k-1}) / T_{k-1}, T = tonnage above the cutoff (T_{-1} = 1): exact reference;
+    # they are centred and mutually orthogonal over the data
+    n = len(data)
+    T = [Fraction(1)] + [Fraction(sum(1 for x in data if x >= z), n) for z in zc]
+    rows = [vd(r) for r in fac if r != []]
+    for i, z in enumerate(data):
+        for k in range(len(zc)):
+            ref = (Fraction(int(z >= zc[k])) / T[k + 1] if T[k + 1] else None, Fraction(int(k == 0 or z >= zc[k - 1])) / T[k])
+            if ref[0] is None: continue
+            if rows[i][k] is None or abs(float(rows[i][k]) - float(ref[0] - ref[1])) > 1e-12 * (1 + abs(float(ref[0] - ref[1]))):
+                site.spec.append(('AnamDiscreteIR:z2factor', 'z = %s, factor %d: impl %s, indicator residual %.12g' % (float(z), k + 1, fl(rows[i][k]), float(ref[0] - ref[1])))); return
+    for k in range(len(zc)):
+        if T[k + 1] == 0: continue
+        m = sum(float(r[k]) for r in rows) / n
+        if abs(m) > 1e-10: site.spec.append(('AnamDiscreteIR:factors-not-centred', 'mean of factor %d over the data = %.3g' % (k + 1, m))); return
+        for l in range(k):
+            cv = sum(float(r[k]) * float(r[l]) for r in rows) / n
+            if abs(cv) > 1e-10: site.spec.append(('AnamDiscreteIR:factors-not-orthogonal', 'factors %d and %d: covariance over the data %.3g' % (l + 1, k + 1, cv))); return
+
 # ----------------------------------------------------------------------------- kind 7: fits of degenerate data under AddressSanitizer
 def gen_degenerate(ctx, rng, quick):
     which = rng.randint(0, 1)
@@ -614,29 +813,39 @@ def run(ctx):
         print('ERROR: model runner or harness does not build'); sys.exit(3)
     rng = ctx.rng
     gens = [(gen_pca, 120 if quick else 1500), (gen_hermite, 120 if quick else 1500), (gen_anam, 40 if quick else 400),
-            (gen_ns, 80 if quick else 1000), (gen_emp, 50 if quick else 600), (gen_rot, 60 if quick else 600)]
+            (gen_ns, 80 if quick else 1000), (gen_emp, 50 if quick else 600), (gen_rot, 60 if quick else 600), (gen_fit, 40 if quick else 500)]
     pys = []; pys_asan = []
     for line in load_corpus(ctx):
         py = py_from_case(line); py['corpus'] = True
-        (pys_asan if py['kind'] in (6, 7) else pys).append(py); ctx.dist('corpus')
+        (pys_asan if py['kind'] in (6, 7, 9) else pys).append(py); ctx.dist('corpus')
     for g, cnt in gens:
         for _ in range(cnt):
             py, case = g(ctx, rng, quick); py['kind'] = case[0]; py['case'] = case; pys.append(py)
     impl, logs = run_resilient(ctx, exe, 'impl', [p['case'] for p in pys])
     # a few cases with very short expansions run under AddressSanitizer (the model is total: any report is a disagreement)
     t_asan = time.time()
-    build_lib(ctx, 'asan')          # shared ASan flavour (pre-built by bin/setup.sh; incremental here)
-    ctx.cov['asan_lib_build_s'] = round(time.time() - t_asan, 1)
-    exe_asan = build_harness(ctx, 'C18', flavor='asan')
+    if quick:
+        # quick tier: no dependence on the ASan flavour of the library (minutes to build in a fresh build directory or on a loaded
+        # machine): the harness and the anchored sources that own the two memory defects found so far are compiled with
+        # -fsanitize=address and linked against the regular library (their instrumented definitions take precedence)
+        exe_asan = build_asan_mix(ctx)
+        ctx.cov['asan_mode'] = 'harness + Hermite.cpp, AnamHermite.cpp, AnamEmpirical.cpp instrumented, regular libgstlearn.so (quick tier)'
+    else:
+        build_lib(ctx, 'asan')          # shared ASan flavour (pre-built by bin/setup.sh; incremental here): full sweep
+        exe_asan = build_harness(ctx, 'C18', flavor='asan')
+        ctx.cov['asan_mode'] = 'ASan flavour of the whole library (thorough tier)'
+    ctx.cov['asan_build_s'] = round(time.time() - t_asan, 1)
     if exe_asan is None:
         print('ERROR: ASan harness does not build'); sys.exit(3)
     for _ in range(24 if quick else 200):
         py, case = gen_condexp(ctx, rng, quick); py['kind'] = case[0]; py['case'] = case; py['asan'] = True; pys_asan.append(py)
     for _ in range(16 if quick else 80):
         py, case = gen_degenerate(ctx, rng, quick); py['kind'] = case[0]; py['case'] = case; py['asan'] = True; pys_asan.append(py)
+    for _ in range(12 if quick else 80):
+        py, case = gen_discrete(ctx, rng, quick); py['kind'] = case[0]; py['case'] = case; py['asan'] = True; pys_asan.append(py)
     impl_a, logs_a = run_resilient(ctx, exe_asan, 'asan', [p['case'] for p in pys_asan], env={'ASAN_OPTIONS': 'detect_leaks=0:abort_on_error=0'})
     ctx.cov['asan_part_s'] = round(time.time() - t_asan, 1)
-    ctx.log('ASan part: %d cases, %.1fs (of which library build %.1fs)' % (len(pys_asan), ctx.cov['asan_part_s'], ctx.cov['asan_lib_build_s']))
+    ctx.log('ASan part: %d cases, %.1fs (of which build %.1fs; %s)' % (len(pys_asan), ctx.cov['asan_part_s'], ctx.cov['asan_build_s'], ctx.cov['asan_mode']))
     pys = pys + pys_asan; impl = impl + impl_a; logs = logs + logs_a
     found_input = False
     mcases = []; mref = []
@@ -644,7 +853,11 @@ def run(ctx):
         if impl[i] is None or (impl[i] and impl[i][0] == -997):
             log = logs[i] or ''
             m = re.search(r'AddressSanitizer: ([a-z-]+)[^\n]*\n(?:[^\n]*\n){0,3}?\s*#0 \S+ in ([\w:~]+)', log)
-            if py.get('asan') and m and py['kind'] == 7:
+            if py.get('asan') and py['kind'] == 9:
+                key = 'crash:AnamDiscrete%s:fit' % ('DD' if py['which'] == 0 else 'IR')
+                m2 = re.search(r'SUMMARY: AddressSanitizer: (\S+) .*? in ([\w:~]+)', log)
+                text = 'AnamDiscrete%s::fitFromArray crashes on a freshly constructed object with %d cutoffs (%s)' % ('DD' if py['which'] == 0 else 'IR', len(py['zc']), (m2.group(1) + ' in ' + m2.group(2)) if m2 else log[-200:])
+            elif py.get('asan') and m and py['kind'] == 7:
                 key = 'asan:%s:%s:degenerate-data' % (m.group(2), m.group(1))
                 text = 'AddressSanitizer %s in %s: %s fit of %s' % (m.group(1), m.group(2), 'AnamEmpirical' if py['which'] == 0 else 'AnamHermite(%d)' % py['nb'], [fl(x) for x in py['data']])
             elif py.get('asan') and m:
@@ -654,8 +867,8 @@ def run(ctx):
                 key = 'crash:%s' % KIND_NAME[py['kind']]; text = 'harness crashed / threw on a %s case: %s' % (KIND_NAME[py['kind']], log[-300:])
             ctx.violation(key, text, {'impl_case': sx_str(py['case']), 'log': log[-1500:]}); found_input = True
             continue
-        if py['kind'] == 7:       # no model: the outcome itself is the verdict
-            site = Site(); check_degenerate(ctx, py, impl[i], site); ctx.count(sx_str(py['case']))
+        if py['kind'] in (7, 9):       # no model: the outcome itself is the verdict
+            site = Site(); (check_degenerate if py['kind'] == 7 else check_discrete)(ctx, py, impl[i], site); ctx.count(sx_str(py['case']))
             if site.spec:
                 ctx.violation(site.spec[0][0], site.spec[0][1], {'impl_case': sx_str(py['case'])}); found_input = True
             continue
@@ -663,7 +876,7 @@ def run(ctx):
         if mc is None:
             # the fit was refused: legitimate only for degenerate data (fewer than two distinct active values)
             vals = set(x for k, x in enumerate(py.get('data', [])) if x is not None and (not py.get('sel') or py['sel'][k]))
-            if py['kind'] in (2, 4) and py.get('mode', 0) == 0 and len(vals) >= 2:
+            if py['kind'] in (2, 4, 8) and py.get('mode', 0) == 0 and len(vals) >= 2:
                 ctx.violation('%s:fit-fails' % KIND_NAME[py['kind']], 'fit returns %s on %d distinct active values' % (impl[i][0], len(vals)), {'impl_case': sx_str(py['case'])}); found_input = True
             else:
                 ctx.cov['tie_excluded'] += 1; ctx.count(None, False); ctx.dist('fit_refused_degenerate')
@@ -712,6 +925,18 @@ def run(ctx):
                        '(law_invcdf_gaussian is a 1e-7 approximation)',
                        'AnamHermite::_defineBounds and the fit are not modelled: coefficients and bounds are harvested; PCA::_variogramh is not modelled (MAF: only V^T C0 V = I and the inverse are checked)']
 
+ASAN_MIX_SOURCES = ['src/Polynomials/Hermite.cpp', 'src/Anamorphosis/AnamHermite.cpp', 'src/Anamorphosis/AnamEmpirical.cpp']
+def build_asan_mix(ctx):
+    fl, ld = lib_flags('lib')
+    outd = os.path.join(BUILD, 'harness'); os.makedirs(outd, exist_ok=True)
+    out = os.path.join(outd, 'C18_asanmix')
+    srcs = [os.path.join(VERIF, 'harness', 'C18.cpp')] + [os.path.join(REPO, f) for f in ASAN_MIX_SOURCES]
+    rc, o, e = sh(['nice', 'g++'] + fl + ['-fsanitize=address', '-fno-omit-frame-pointer', '-g1'] + srcs + ['-o', out + '.tmp%d' % os.getpid()] + ld, timeout=900)
+    if rc != 0:
+        ctx.log('ASan (mixed) harness build failed', e[-2000:]); return None
+    os.replace(out + '.tmp%d' % os.getpid(), out)
+    return out
+
 def run_resilient(ctx, exe, name, cases, env=None):
     """run the harness; a crash loses only the crashing case (the run is resumed after it). Returns (results | None, log | None) per case"""
     res = [None] * len(cases); logs = [None] * len(cases)
@@ -741,6 +966,8 @@ def py_from_case(c):
     elif k == 4: py.update({'data': [ud(x) for x in c[1]], 'yq': [ud(x) for x in c[2]], 'zq': [ud(x) for x in c[3]]})
     elif k == 5: py.update({'ndim': c[1], 'mode': c[2], 'vecs': [[ud(x) for x in v] for v in c[4]]})
     elif k == 6: py.update({'nb': len(c[3]), 'y': ud(c[1]), 'psi': [ud(x) for x in c[3]], 'asan': True})
+    elif k == 9: py.update({'which': c[1], 'data': [ud(x) for x in c[2]], 'zc': [ud(x) for x in c[3]], 'asan': True})
+    elif k == 8: py.update({'nb': c[1], 'data': [ud(x) for x in c[2]]})
     elif k == 7: py.update({'which': c[1], 'nb': c[2], 'data': [ud(x) for x in c[3]], 'asan': True})
     return py
 
@@ -749,16 +976,16 @@ def load_corpus(ctx):
     if not os.path.exists(p): return []
     return [sx_parse(l) for l in open(p) if l.strip() and not l.startswith('#')]
 
-KIND_NAME = {7: 'degenerate-fit', 0: 'PCA', 1: 'hermitePolynomials', 2: 'AnamHermite', 3: 'normalScore', 4: 'AnamEmpirical', 5: 'Rotation', 6: 'hermiteCondExpElement'}
+KIND_NAME = {9: 'AnamDiscrete', 8: 'fitFromArray', 7: 'degenerate-fit', 0: 'PCA', 1: 'hermitePolynomials', 2: 'AnamHermite', 3: 'normalScore', 4: 'AnamEmpirical', 5: 'Rotation', 6: 'hermiteCondExpElement'}
 MODEL_CASE = {0: lambda py, im: pca_model_case_any(py, im), 1: hermite_model_case, 2: anam_model_case,
-              3: lambda py, im: py['case'][:3], 4: emp_model_case, 5: rot_model_case, 6: condexp_model_case}
-CHECK = {0: check_pca, 1: check_hermite, 2: check_anam, 3: check_ns, 4: check_emp, 5: check_rot, 6: check_condexp}
+              3: lambda py, im: py['case'][:3], 4: emp_model_case, 5: rot_model_case, 6: condexp_model_case, 8: fit_model_case}
+CHECK = {0: check_pca, 1: check_hermite, 2: check_anam, 3: check_ns, 4: check_emp, 5: check_rot, 6: check_condexp, 8: check_fit}
 
 def pca_model_case_any(py, im):
     if im[0] != 0:
         z = [[0, 0]] * py['nvar']; zm = [z] * py['nvar']
         c = py['case']
-        return [0, py['mode'], py['nvar'], c[4], c[5], z, zm, z, z, zm, zm, c[8]]
+        return [0, py['mode'], py['nvar'], c[4], c[5], z, zm, z, z, zm, zm, c[8], c[3], c[6], c[7]]
     return pca_model_case(py, im)
 
 if __name__ == '__main__':
